@@ -82,6 +82,19 @@ pub fn dump_types<'tcx>(tcx: TyCtxt<'tcx>, krate: &str, out: &mut Vec<u8>) {
                     ("discrs", arr(&discrs)),
                 ]));
             }
+            DefKind::TyAlias => {
+                // `pub type X<'a> = Y<'a, u16>;` instantiates Y's generic methods without any call in the crate
+                let t = tcx.type_of(did).instantiate_identity().skip_norm_wip();
+                let l = loc_of(tcx, tcx.def_span(did));
+                push(obj(&[
+                    ("k", "\"alias\"".into()),
+                    ("crate", s(krate)),
+                    ("path", s(&path_of(tcx, did))),
+                    ("ty", s(&ty_str(t))),
+                    ("file", s(&l.file)),
+                    ("line", l.line.to_string()),
+                ]));
+            }
             DefKind::Trait => {
                 // can the trait be implemented outside the crate?  (closed world for return summaries of its methods)
                 let reachable = did.as_local().map(|ld| tcx.effective_visibilities(()).is_reachable(ld)).unwrap_or(true);
